@@ -613,6 +613,7 @@ func init() {
 		Config:            func(cs Case) simrt.Config { return simrt.Config{NoJumps: true, MaxSteps: 100000} },
 		BudgetIsViolation: true,
 		RaceCompanion:     "C09R",
+		Companions:        []string{"C09S"},
 		QuickRuns:         50000,
 		ThoroughRuns:      400000,
 		Rule: "2-4 concurrent client tasks (plus, in a third of the runs, a real retention scan) issue <=14 operations in total on 1-3 mailboxes " +
